@@ -45,8 +45,9 @@ SCRIPTS = {
         "elif codes.PAT_RELAYS.match(s):\n    g = codes.PAT_RELAYS.match(s).group(2)\n"
         "    if re.fullmatch(r'\\d+[hH]?', g): exp = int(g.rstrip('hH'))\n    elif re.fullmatch(r'\\d+K', g): exp = 1000 * int(g[:-1])\n"
         "elif codes.PAT_TRACK.match(s) and not (codes.PAT_THROWS.match(s) or codes.PAT_JUMPS.match(s)):\n    g = codes.PAT_TRACK.match(s).group('meters')\n"
-        "    if g and g.isdigit(): exp = int(g)\n    elif g and g.upper() == 'MILE': exp = 1609\n    elif g: exp = 1609 * int(g[0])\n"
-        "print(repr(s), k, 'expected distance', exp)\nsys.exit(1 if exp is not None and k[1] != exp else 0)\n"),
+        "    if g and g.isdigit(): exp = int(g)\n    elif g and g.upper() == 'MILE': exp = (1609, 1610)\n    elif g: exp = (1609 * int(g[0]), 1610 * int(g[0]) + (int(g[0]) == 0))\n"
+        "print(repr(s), k, 'expected distance', exp)\n"
+        "sys.exit(1 if exp is not None and (not (exp[0] <= k[1] < exp[1]) if isinstance(exp, tuple) else k[1] != exp) else 0)\n"),
     'field-order': _PRE + (
         "k = athlib.discipline_sort_key(s)\nu = s.upper()\nbase = ''\n"
         "for ch in u:\n    if ch.isalpha(): base += ch\n    else: break\n"
@@ -79,7 +80,16 @@ def _int_of(text):
 
 
 def _as_term(v):
-    return v.term if isinstance(v, SymInt) else z3.IntVal(v)
+    if isinstance(v, SymInt):
+        return v.term
+    if isinstance(v, SymFloat):
+        if v.ieee:
+            raise E.Unsupported('bit-precise float in a sort key')
+        return v.term
+    if isinstance(v, float):
+        from symrun.values import realval
+        return realval(v)
+    return z3.IntVal(v)
 
 
 def body_single(template):
@@ -143,10 +153,13 @@ def body_single(template):
                 if all(classify(c) == 'digit' for c in gc):
                     expd = _int_of(g)
                 elif len(gc) == 4:
-                    expd = 1609
+                    expd = ('mile', 1)
                 else:
-                    expd = 1609 * _int_of(g[0])
-        if expd is not None:
+                    expd = ('mile', _int_of(g[0]))
+        if isinstance(expd, tuple):
+            n = _as_term(expd[1])
+            eng.check(z3.And(_as_term(dist) >= 1609 * n, _as_term(dist) < 1610 * n + z3.If(n == 0, 1, 0)), 'distance')
+        elif expd is not None:
             eng.check(_as_term(dist) == _as_term(expd), 'distance')
         # ---- field order index
         if mt or mj:
